@@ -265,6 +265,9 @@ func Build(spec *ProgSpec) *Built {
 		}
 		g.HelpCommand(spec.Help, fns...)
 	}
+	if spec.UnknownLate > 0 {
+		g.SetUnknownMode(getoptions.UnknownMode(spec.UnknownLate - 1))
+	}
 	if spec.ModeLate {
 		// the mode is a property of the whole parse (taken from the root at Parse time)
 		g.SetMode(getoptions.Mode(spec.Mode))
